@@ -119,3 +119,15 @@ pub struct VerifOnDemandExOsStr(std::ffi::OsStr);
 #[verifier::external_type_specification]
 #[verifier::external_body]
 pub struct VerifOnDemandExPath(std::path::Path);
+//@ondemand core::result::impl&%0::map_or
+pub assume_specification<T, E, U, F: FnOnce(T) -> U>[ Result::<T, E>::map_or ](a: Result<T, E>, default: U, f: F) -> (r: U)
+    requires a matches Ok(x) ==> call_requires(f, (x,)),
+    ensures (a matches Ok(x) ==> call_ensures(f, (x,), r)), (a is Err ==> r == default);
+//@ondemand core::result::impl&%0::map_or_else
+pub assume_specification<T, E, U, D: FnOnce(E) -> U, F: FnOnce(T) -> U>[ Result::<T, E>::map_or_else ](a: Result<T, E>, d: D, f: F) -> (r: U)
+    requires (a matches Ok(x) ==> call_requires(f, (x,))), (a matches Err(e) ==> call_requires(d, (e,))),
+    ensures (a matches Ok(x) ==> call_ensures(f, (x,), r)), (a matches Err(e) ==> call_ensures(d, (e,), r));
+//@ondemand core::result::impl&%0::unwrap_or_else
+pub assume_specification<T, E, F: FnOnce(E) -> T>[ Result::<T, E>::unwrap_or_else ](a: Result<T, E>, f: F) -> (r: T)
+    requires a matches Err(e) ==> call_requires(f, (e,)),
+    ensures (a matches Ok(x) ==> r == x), (a matches Err(e) ==> call_ensures(f, (e,), r));
